@@ -28,6 +28,7 @@ CACHE_PROPS = LIST_PROPS + ['C18']
 def ret_cases(b):
     """[(block where the value is final, value)] for every way of returning"""
     out = []
+    loop_headers = set(b.cfg.loops().keys())
     for rb in b.cfg.returns:
         rv = b.ret_val.get(rb)
         if rv is None:
@@ -36,14 +37,39 @@ def ret_cases(b):
         seen = set()
         while stack:
             blk, v = stack.pop()
-            v = strip(v)
+            # expand merges at this block path by path (also trivial ones: the path matters to the callers)
+            while v is not None and v.kind == 'cast':
+                v = v.args[0]
+            if v.kind == 'phi' and v.extra['block'] != blk:
+                pb = v.extra['block']
+                if pb not in loop_headers and b.cfg.dominates(pb, blk) and v.id not in seen:
+                    # a merge in a dominating, non-loop-header block: the value is final at its predecessors
+                    seen.add(v.id)
+                    for a, p in zip(v.args, v.extra['preds']):
+                        stack.append((p, a))
+                    continue
+                v = strip(v)
             if v.kind == 'phi' and v.extra['block'] == blk and v.id not in seen:
                 seen.add(v.id)
                 for a, p in zip(v.args, v.extra['preds']):
                     stack.append((p, a))
             else:
-                out.append((blk, v))
-    return out
+                out.append((blk, strip(v)))
+    # a value that reaches the return through a plain merge block (several predecessors, not a loop header) is
+    # judged on each incoming path separately
+    final = []
+    work = list(out)
+    seen2 = set()
+    while work:
+        blk, v = work.pop()
+        preds = [p for p in b.cfg.pred[blk] if p in b.cfg.reach]
+        if len(preds) > 1 and blk not in loop_headers and (blk, v.id) not in seen2 and not (v.point and v.point[0] == blk and v.kind != 'phi'):
+            seen2.add((blk, v.id))
+            for p in preds:
+                work.append((p, v))
+        else:
+            final.append((blk, v))
+    return final
 
 
 def known_empty(prog, b, v, block):
